@@ -62,7 +62,7 @@ POINTS = {
 REQUIRED_POINTS = list(POINTS)
 REQUIRED_CLAUSES = [history.CLAUSE, "season.longitude", "season.order-and-gaps",
                     "season.year-length", "season.refuses-other-years",
-                    "season.in-requested-year",
+                    "season.in-requested-year", "sunrise.on-requested-day",
                     "season.same-answer-when-asked-again",
                     "eot.range", "eot.daily-change", "sunrise.altitude",
                     "sunrise.order", "rts.altitude", "rts.transit",
@@ -287,7 +287,8 @@ def sun_alt_ha(jd_ut, lat, lon_east):
     from pymeeus.Sun import Sun
     from pymeeus.Angle import Angle
     from pymeeus import Coordinates as C
-    t = Epoch(jd_ut)
+    from vpm import seams
+    t = seams.raw_epoch(jd_ut)      # exactly this instant (vpm/seams.py)
     lo, la, r = Sun.apparent_geocentric_position(t)
     eps = C.true_obliquity(t)
     ra, dec = C.ecliptical2equatorial(lo, la, eps)
@@ -366,6 +367,14 @@ def case_sunrise(mon, y, m, d, lat, lon, h):
               dict(case, rise=a, set=b, hour_angle_at_rise=ha,
                    hour_angle_at_set=hb))
     mon.check("epoch-unchanged", e.jde() == Epoch(y, m, d).jde(), case)
+    # ... and they belong to the date that was asked for: either side of that
+    # date's local transit (mean noon at the longitude, +-17 min), which the
+    # day counter gives without the library's calendar
+    from vpm.oracles import daycount as dc
+    tr = dc.jdn(y, m, int(d)) - 0.5 + 0.5 - lon / 360.0
+    mon.check("sunrise.on-requested-day",
+              tr - 0.62 <= a <= tr + 0.02 and tr - 0.02 <= b <= tr + 0.62,
+              dict(case, rise=a, set=b, mean_local_noon_of_date=tr))
 
 
 # ----------------------------------------------------- rise / transit / set
@@ -503,6 +512,11 @@ def run(mon, spec):
                           0.0))
         lon = rng.choice((180.0, -180.0, 0.0, rng.uniform(-180, 180)))
         h = rng.choice((0.0, 5000.0, rng.uniform(0, 5000)))
+        if k % 16 == 2:
+            # both ends of the range, in the months where the century rule of
+            # the calendar matters
+            y = rng.choice((1900, 2100))
+            m, d = rng.choice((1, 2, 2, 3)), rng.randrange(1, 29)
         if k % 4 == 1:
             # an Epoch that carries a time of day: the answer is for its date
             d = d + rng.choice((0.25, 0.5, 0.75, 0.999, rng.random()))
